@@ -450,6 +450,47 @@ def canonical_subscripts(fn: ast.FunctionDef) -> list[str]:
     return out
 
 
+def literal_binding(fi, name: str) -> ast.AST | None:
+    """the literal a name denotes: its single assignment in the function, else its single assignment at module level (a constant
+    table moved out of the function), else None"""
+    local = [n for n in walk_no_nested(fi.node) if isinstance(n, (ast.Assign, ast.AnnAssign)) and unparse(n.targets[0] if isinstance(n, ast.Assign) else n.target) == name
+             and getattr(n, "value", None) is not None]
+    if len(local) == 1:
+        v = local[0].value
+        if isinstance(v, ast.Name):
+            return literal_binding(fi, v.id) if v.id != name else None
+        return v
+    if local:
+        return None
+    mi = fi.module
+    writes = [st for n_, st in mi.assigns_all if n_ == name]
+    if len(writes) == 1:
+        v = mi.assigns[name]
+        if isinstance(v, ast.Call) and call_name(v) in ("frozenset", "tuple", "set", "dict", "MappingProxyType", "types.MappingProxyType") and len(v.args) == 1:
+            v = v.args[0]
+        return v
+    return None
+
+
+def const_string(fi, node: ast.AST | None, depth: int = 0) -> str | None:
+    """the string an expression denotes when it is built from literals, the `string` module's constants, `+`, and names bound once
+    (in the function or at module level) to such expressions"""
+    import string as _string
+
+    if node is None or depth > 6:
+        return None
+    if isinstance(node, ast.Constant) and isinstance(node.value, str):
+        return node.value
+    if isinstance(node, ast.Attribute) and isinstance(node.value, ast.Name) and node.value.id == "string" and hasattr(_string, node.attr) and isinstance(getattr(_string, node.attr), str):
+        return getattr(_string, node.attr)
+    if isinstance(node, ast.BinOp) and isinstance(node.op, ast.Add):
+        a, b = const_string(fi, node.left, depth + 1), const_string(fi, node.right, depth + 1)
+        return a + b if a is not None and b is not None else None
+    if isinstance(node, ast.Name):
+        return const_string(fi, literal_binding(fi, node.id), depth + 1)
+    return None
+
+
 def alias_root(fn: ast.FunctionDef, name: str, depth: int = 6) -> str:
     """follow `x = y` copies back to the first name (parameters included); stops at anything that is not a plain copy."""
     cur = name
